@@ -3,6 +3,7 @@ C16 — File locks: others' locks block pushes, write bits and cache follow the 
 Property theorems only (obligations of ./check C16).
 -/
 import LfsModel.Locks
+import LfsModel.PostCommit
 
 namespace C16
 open Lk
@@ -226,5 +227,19 @@ theorem disabled_never_blocks (t : Table) (touched : List Nat) : pushRejected fa
 /-- non-vacuity: lock, edit, guarded unlock, then a clean unlock -/
 example : (run { table := [], cache := [], nextId := 1 } [.lock 3 .ok, .unlockPath 3 false true .ok]).table = [⟨1, 3, 0⟩] := by decide
 example : (run { table := [], cache := [], nextId := 1 } [.lock 3 .ok, .unlockPath 3 false false .ok]).table = [] := by decide
+
+/-! ### the commit hook: which files it re-examines -/
+
+/-- every file the commit adds or modifies with respect to some parent — every file of a root commit —
+    is among the files whose write bit the hook sets from the lock state -/
+theorem commit_hook_sees_new_files (parents : List PostCommit.Tree) (t : PostCommit.Tree) (p b : Nat) (h : (p, b) ∈ t)
+    (hdiff : parents = [] ∨ ∃ par ∈ parents, PostCommit.lookup par p ≠ some b) : p ∈ PostCommit.changed parents t :=
+  PostCommit.new_or_modified_is_listed parents t p b h hdiff
+
+/-- … and only files that differ from a parent -/
+theorem commit_hook_sees_only_changes (parents : List PostCommit.Tree) (hne : parents ≠ []) (t : PostCommit.Tree) (p : Nat)
+    (h : p ∈ PostCommit.changed parents t) :
+    ∃ par ∈ parents, PostCommit.lookup par p ≠ PostCommit.lookup t p ∨ (∃ b, (p, b) ∈ t ∧ PostCommit.lookup par p ≠ some b) :=
+  PostCommit.unchanged_not_listed parents hne t p h
 
 end C16
